@@ -261,6 +261,21 @@ CHECKS = {
   note='trusted: Incr.tla, the gcc logging wrapper, the reference-Makefile scope test (excluded names are listed in '
        'the evidence), tick barrier, reference ninja for the Ninja backend',
   design='5/C07'),
+ 'C04': dict(
+  technique='TLA+ predicate of the name classes the property excludes per backend (Names.tla) and contract on recorded '
+            'cycles (Names_Trace.tla, validated by TLC); one real project per (name, role, backend) run through '
+            'configure / build / rebuild / touch / clean with real GNU Make and the reference ninja; scope established '
+            'at run time by a hand-written reference build file',
+  text='For every ASCII punctuation character and blank in three positions of a name, sampled two-character '
+       'combinations and random names, in five roles (source file, output name, source sub-directory, output '
+       'directory, copied file) and both backends, TLC checks the four observations of the property (created at '
+       'exactly that path, up to date afterwards, change of the named prerequisite noticed, clean removes it) for '
+       'every name that is in scope; in scope = a reference Makefile / manifest written by an independent reference '
+       'escaper completes the same cycle and Names.tla does not exclude the class. The TLA+ part is the contract and '
+       'the scope predicate; a design model of the target/dependency escape tables is not yet part of this check.',
+  note='trusted: the reference escaper (harness/checks/c04.py mk_escape / nj_escape) as the definition of '
+       '"representable", stub compilers, mtime observation, reference ninja',
+  design='5/C04'),
 }
 
 NOT_YET = {}
